@@ -399,8 +399,13 @@ fn dechunk(mut b: &[u8]) -> Option<Vec<u8>> {
     let mut out = Vec::new();
     loop {
         let line_end = b.windows(2).position(|w| w == b"\r\n")?;
-        let size =
-            usize::from_str_radix(std::str::from_utf8(&b[..line_end]).ok()?.trim(), 16).ok()?;
+        // chunk-size [ ";" chunk-ext ] (RFC 9112 7.1.1): extensions are ignored.
+        let line = &b[..line_end];
+        let size_text = match line.iter().position(|&c| c == b';') {
+            Some(i) => &line[..i],
+            None => line,
+        };
+        let size = usize::from_str_radix(std::str::from_utf8(size_text).ok()?.trim(), 16).ok()?;
         b = &b[line_end + 2..];
         if size == 0 {
             return Some(out);
